@@ -86,6 +86,15 @@ def worker(spec):
         sys.modules[n] = h
         IMPORTED.append(h)
 
+    class HostileError(Exception):
+        """an exception that cannot be rendered: __str__ reads an attribute __init__ never set"""
+
+        def __str__(self):
+            return self.detail
+
+    def boom():
+        return HostileError() if rng.random() < 0.5 else ValueError("boom")
+
     def mk(name, flavor):
         m = types.ModuleType(name)
         if flavor in ("module", "both", "raising_module", "importing_module"):
@@ -93,7 +102,7 @@ def worker(spec):
                 LOG.append(("start", "module", name, id(m), threading.get_ident()))
                 try:
                     if flavor == "raising_module":
-                        raise ValueError("boom")
+                        raise boom()
                     if flavor == "importing_module":
                         import_helper()
                 finally:
@@ -106,7 +115,7 @@ def worker(spec):
             LOG.append(("start", "builtin", name, None, threading.get_ident()))
             try:
                 if flavor == "raising_builtin":
-                    raise ValueError("boom")
+                    raise boom()
                 if flavor == "importing_builtin":
                     import_helper()
             finally:
